@@ -20,6 +20,9 @@ CHECKS = {
  "C17": dict(cat="exploration", technique="runtime oracle over the real SwitchPool: independent eligibility evaluator, caller-slice snapshot comparison, Block/expiry histories, 16-goroutine shared-pool/shared-slice stress under the race detector",
      text="Each GetOne result is judged against an independent evaluator of (list membership, zone, free count, policy) on generated candidate lists, zones and counts; the caller's slice is compared with its pre-call copy; Block then re-select histories run on a 1h-TTL pool (must stay unchosen) and a 50ms-TTL pool probed 1.1s later (must be re-read); one pool and one candidate slice are shared by 16 goroutines under -race.",
      note="VPC DescribeVSwitch is simulated; expiry is observed through real time with a ≥20× margin.", ref="§2 C17"),
+ "C20": dict(cat="exploration", technique="differential runtime oracle (independent RFC 7396 + algebraic laws) on MergeConfigAndUnmarshal; complete enumeration of the CNI-chain input product through the real mergeConfigList/switchDataPathV2/allowEBPFNetworkPolicy in-package (go test -overlay) under private netns/tmpfs",
+     text="Merge: generated base/overlay documents over the Config schema are merged by terway and by an independent RFC 7396 implementation and compared after unmarshal; empty-overlay, idempotence and absent-key laws are asserted per case. Chain: the full product (plugin lists × kernel eBPF/EDT × policy provider × virtual type × AutoDataPathV2 × recorded capabilities × cilium_net link × network policy = 52 488 cases) is run through the real generator and each output is parsed and judged.",
+     note="chain half runs inside cmd/terway-cli (package main) via -overlay with a private tmpfs on /run for the capabilities file and a veth named cilium_net in a private netns.", ref="§2 C20"),
 }
 NOT_YET = {}
 
